@@ -118,6 +118,11 @@ def cli_exec(root, target_rel, settings, cwd_rel="cwd", order_key=None, faults=(
         else:
             invoke()
     finally:
+        try:
+            res["cwd_after"] = os.path.realpath(os.getcwd()).replace(root, "<SBX>")
+        except OSError:
+            res["cwd_after"] = None
+        res["cwd_before"] = os.path.realpath(cwd).replace(root, "<SBX>")
         seams.audit_stop()
         sys.stdout, sys.stderr = saved[4], saved[5]
         seams.unpatch_dir_listing()
